@@ -2,9 +2,9 @@ package introspection
 
 import (
 	"github.com/vektah/gqlparser/v2"
-	"strings"
-	"sort"
 	"github.com/vektah/gqlparser/v2/ast"
+	"sort"
+	"strings"
 
 	"github.com/99designs/gqlgen/zzsym"
 )
@@ -310,6 +310,18 @@ func c16AstChain(t *ast.Type) string {
 // schema the sorted type list, the root types and every directive with its
 // locations, repeatability and arguments - all equal to the ast.Schema.
 func Harness_C16_relations() {
+	// introspection only reads the schema, so a second introspection of the same schema answers like the first
+	zzsym.Frozen("introspection does not write into the schema it describes", c16RelSchema)
+	if zzsym.Choice("prior", 2) == 1 {
+		for _, t := range WrapSchema(c16RelSchema).Types() {
+			t.Interfaces()
+			t.PossibleTypes()
+			t.Fields(true)
+			t.InputFields()
+			t.EnumValues(true)
+		}
+		WrapSchema(c16RelSchema).Directives()
+	}
 	s := WrapSchema(c16RelSchema)
 	var names []string
 	for n := range c16RelSchema.Types {
